@@ -76,6 +76,12 @@ def replay_and_validate(run, behs, driver, driver_args, trace_module, trace_cfg,
         if res["hw"] == res["len"] + 1:
             validated += len(chunk)
             for k in res.get("dev", []) or []:
+                if k == "outside-quantifier":
+                    # the real node admitted a re-submission of a transaction that is already on its chain (the driver
+                    # left the property's quantifier, e.g. because the real miner packed other transactions than the
+                    # generator assumed): the rest of that behaviour was not judged; nothing to report
+                    run.cov["behaviours_cut_short_outside_quantifier"] = run.cov.get("behaviours_cut_short_outside_quantifier", 0) + 1
+                    continue
                 d = (kf_desc or {}).get(k, k)
                 if d is None:      # deviation outside this property: enabled silently
                     run.cov.setdefault("deviations_outside_property", [])
